@@ -257,6 +257,7 @@ func runC11(r *harness.Run) {
 	c11Blocking(r)
 	c11ThreadAfterCancel(r)
 	c11LiveContextFamilies(r)
+	c11MidRun(r)
 }
 
 // c11LiveContextFamilies — "until the context is done, attaching it does not change the script's
